@@ -42,9 +42,27 @@ func (vc *VC) mapLookup(st *State, mt *types.Map, m, k string) string {
 	return fmt.Sprintf("(ite %s (select (select %s %s) %s) %s)", vc.mapHas(st, mt, m, k), vc.mapMemAt(st, v), m, k, vc.enc.zero(mt.Elem()))
 }
 
+// maplenDecl declares the length function of a map type's domains (shared by mapLen and the update lemmas).
+func (vc *VC) maplenDecl(mt *types.Map) string {
+	e := vc.enc
+	ks := e.sortOf(mt.Key())
+	fn := "maplen." + typeKey(mt)
+	e.addPre(fn, fmt.Sprintf("(declare-fun %s ((Array %s Bool)) %s)", fn, ks, e.I()))
+	e.addPre(fn+".ax", fmt.Sprintf("(assert (forall ((d (Array %s Bool))) (! (>= (%s d) 0) :pattern ((%s d)))))\n(assert (= (%s ((as const (Array %s Bool)) false)) 0))", ks, fn, fn, fn, ks))
+	return fn
+}
+
 func (vc *VC) mapStore(st *State, mt *types.Map, m, k, v string) {
 	d, vv := vc.enc.mapMems(mt)
 	dcur, vcur := vc.mapMemAt(st, d), vc.mapMemAt(st, vv)
+	// length: inserting an absent key adds one, overwriting a present key keeps the length
+	{
+		fn := vc.maplenDecl(mt)
+		ks := vc.enc.sortOf(mt.Key())
+		dold := vc.def("mapdom.old", fmt.Sprintf("(Array %s Bool)", ks), fmt.Sprintf("(select %s %s)", dcur, m))
+		dnew := vc.def("mapdom.new", fmt.Sprintf("(Array %s Bool)", ks), fmt.Sprintf("(store %s %s true)", dold, k))
+		vc.emit(fmt.Sprintf("(assert (= (%s %s) (ite (select %s %s) (%s %s) (+ (%s %s) 1))))", fn, dnew, dold, k, fn, dold, fn, dold))
+	}
 	st.mem[d] = vc.def(d, vc.enc.mapMemSorts[d], fmt.Sprintf("(store %s %s (store (select %s %s) %s true))", dcur, m, dcur, m, k))
 	st.mem[vv] = vc.def(vv, vc.enc.mapMemSorts[vv], fmt.Sprintf("(store %s %s (store (select %s %s) %s %s))", vcur, m, vcur, m, k, v))
 }
@@ -52,6 +70,13 @@ func (vc *VC) mapStore(st *State, mt *types.Map, m, k, v string) {
 func (vc *VC) mapDelete(st *State, mt *types.Map, m, k string) {
 	d, _ := vc.enc.mapMems(mt)
 	dcur := vc.mapMemAt(st, d)
+	{
+		fn := vc.maplenDecl(mt)
+		ks := vc.enc.sortOf(mt.Key())
+		dold := vc.def("mapdom.old", fmt.Sprintf("(Array %s Bool)", ks), fmt.Sprintf("(select %s %s)", dcur, m))
+		dnew := vc.def("mapdom.new", fmt.Sprintf("(Array %s Bool)", ks), fmt.Sprintf("(store %s %s false)", dold, k))
+		vc.emit(fmt.Sprintf("(assert (= (%s %s) (ite (select %s %s) (- (%s %s) 1) (%s %s))))", fn, dnew, dold, k, fn, dold, fn, dold))
+	}
 	st.mem[d] = vc.def(d, vc.enc.mapMemSorts[d], fmt.Sprintf("(store %s %s (store (select %s %s) %s false))", dcur, m, dcur, m, k))
 }
 
@@ -65,9 +90,6 @@ func (vc *VC) mapInit(st *State, mt *types.Map, obj string) {
 func (vc *VC) mapLen(st *State, mt *types.Map, m string) string {
 	d, _ := vc.enc.mapMems(mt)
 	e := vc.enc
-	ks := e.sortOf(mt.Key())
-	fn := "maplen." + typeKey(mt)
-	e.addPre(fn, fmt.Sprintf("(declare-fun %s ((Array %s Bool)) %s)", fn, ks, e.I()))
-	e.addPre(fn+".ax", fmt.Sprintf("(assert (forall ((d (Array %s Bool))) (! (>= (%s d) 0) :pattern ((%s d)))))\n(assert (= (%s ((as const (Array %s Bool)) false)) 0))", ks, fn, fn, fn, ks))
+	fn := vc.maplenDecl(mt)
 	return fmt.Sprintf("(ite (= %s 0) %s (%s (select %s %s)))", m, e.ilit(0), fn, vc.mapMemAt(st, d), m)
 }
